@@ -25,14 +25,14 @@ JudgeC02(e) ==
     LET r == Parse(e.m, e.cls, e.id, e.pbf = 1, e.P) IN
     IF r.err = "uncovered" THEN "triv"
     ELSE IF ~Conforms(r, e.P) THEN "triv"
-    ELSE IF e.out # "msg" THEN "C02:parse-refused:" \o e.out
-    ELSE IF e.identity # Identity(e.cls, e.id, e.P) THEN "C02:identity"
+    ELSE IF e.out # "msg" THEN e.prop \o ":parse-refused:" \o e.out
+    ELSE IF e.identity # Identity(e.cls, e.id, e.P) THEN e.prop \o ":identity"
     ELSE LET d == FirstDiff(e.attrs, r.attrs, 1) IN
          IF d = 0 THEN "ok"
-         ELSE IF d > Len(e.attrs) THEN "C02:attribute-missing:" \o r.attrs[d].n
-         ELSE IF d > Len(r.attrs) THEN "C02:extra-attribute:" \o e.attrs[d][1]
-         ELSE IF e.attrs[d][1] # r.attrs[d].n THEN "C02:attribute-name-or-order:" \o r.attrs[d].n \o "/" \o e.attrs[d][1]
-         ELSE "C02:value:" \o r.attrs[d].n
+         ELSE IF d > Len(e.attrs) THEN e.prop \o ":attribute-missing:" \o r.attrs[d].n
+         ELSE IF d > Len(r.attrs) THEN e.prop \o ":extra-attribute:" \o e.attrs[d][1]
+         ELSE IF e.attrs[d][1] # r.attrs[d].n THEN e.prop \o ":attribute-name-or-order:" \o r.attrs[d].n \o "/" \o e.attrs[d][1]
+         ELSE e.prop \o ":value:" \o r.attrs[d].n
 
 Note(e) ==
     LET dn == SelectDefName(e.m, e.cls, e.id, e.P) IN
